@@ -26,6 +26,7 @@ type SQLEvent struct {
 	Fault     string
 	CallerGone bool // the caller's context had already ended when the statement was delivered
 	It         *iterRec // state-handler invocation of Src that was open when the statement was issued (nil: none)
+	Aux        string   // for replica-status reads: what the server showed (role, threads)
 }
 
 // toldOK: the issuing process was told that the statement succeeded
@@ -337,6 +338,15 @@ func (s *Sim) deliverSQL(c *call, flt string) {
 	res, deferred := s.mysql.exec(sv, c)
 	ev.After = sv.stateSig()
 	ev.Applied = true
+	if strings.HasPrefix(c.query, "SHOW SLAVE STATUS") || strings.HasPrefix(c.query, "SHOW REPLICA STATUS") {
+		if !sv.HasChannel {
+			ev.Aux = "master"
+		} else if sv.IORun && !sv.IOConnecting && sv.SQLRun {
+			ev.Aux = "running"
+		} else {
+			ev.Aux = "notrunning"
+		}
+	}
 	ev.Effective = ev.Before != ev.After
 	if res.err != nil {
 		ev.Err = res.err.Error()
